@@ -221,7 +221,8 @@ func (e *fnEnc) contractFor(c *ssa.CallCommon) *FuncContract {
 	// per-property environment assumption: the named callees do not write memory that existed
 	// before the call (decoders, validators of other properties); reported in the evidence
 	key := e.calleeKey(c)
-	for _, pat := range e.V.AssumeFrames {
+	for _, pat0 := range e.V.AssumeFrames {
+		pat := strings.TrimSuffix(pat0, ":recv")
 		if strings.Contains(key, pat) {
 			if cached, ok := e.V.frameContracts[key]; ok {
 				return cached
@@ -232,9 +233,25 @@ func (e *fnEnc) contractFor(c *ssa.CallCommon) *FuncContract {
 			} else {
 				nc = FuncContract{Key: key}
 			}
-			nc.ModSet, nc.ModNone = true, true
+			nc.ModSet = true
+			if pat0 != pat {
+				// "<name>:recv": a decoder-style method - it writes its receiver object (and
+				// memory it allocates), nothing else that existed before the call
+				callee := e.staticCallee(c)
+				if callee == nil || callee.Signature.Recv() == nil || len(callee.Params) == 0 {
+					continue
+				}
+				if _, isPtr := callee.Params[0].Type().Underlying().(*types.Pointer); !isPtr {
+					nc.ModNone = true
+				} else {
+					nc.Modifies = []Expr{&EUnary{Op: "*", X: &EIdent{Name: callee.Params[0].Name()}}}
+				}
+				e.V.FrameAssumed[key+" (writes its receiver only)"] = true
+			} else {
+				nc.ModNone = true
+				e.V.FrameAssumed[key] = true
+			}
 			e.V.frameContracts[key] = &nc
-			e.V.FrameAssumed[key] = true
 			return &nc
 		}
 	}
